@@ -337,11 +337,15 @@ class Gen:
             extra = (self.num_lit(),) if c2 > 0.92 else ()
             return ('call', ('fun', (p,), body), (arg,) + extra)
         if c < 0.64:   # a context entry referring to an earlier entry, then path
-            k1, k2 = 104, 105
+            # the entries are evaluated in the order they are WRITTEN, which half of the time is not the order of their keys (seeded change C01_j:
+            # a map sorted by key), and the later entry reads the earlier one
+            k1, k2 = (104, 105) if r.random() < 0.5 else (105, 104)
             e1 = self.gen(kind, d - 1, env)
             env2 = dict(env)
             env2[k1] = kind
             e2 = self.gen(kind, d - 1, env2)
+            if r.random() < 0.5:
+                e2 = ('bin', 'Add', ('name', k1), self.num_lit()) if kind == 'num' else ('if', self.gen('bool', d - 1, env2), ('name', k1), e2)
             return ('path', ('ctx', ((k1, e1), (k2, e2))), k2)
         if c < 0.70:   # boolean filter with a single survivor (singleton unwrapping)
             if kind in ('num', 'str'):
